@@ -28,6 +28,8 @@ def generate(rng, tier):
         tail += ["minimize", "finals"]
         if rng.random() < 0.3:
             tail += ["minimize"]          # idempotence
+        if rng.random() < 0.3:
+            tail += ["prune", "finals", "minimize"]   # prune after the initial state was renumbered
         cases.append(" ; ".join(st + tail))
     info = {"rule": "complete DFAs from builder histories (1-9 states quick / 1-30 thorough, random per-state partitions, defaults, unreachable parts incl. several predecessor-less states (the D10 shape), all-final / none-final, planted copies of states and cycles of equivalent sinks); minimize on the raw and on the pruned automaton, twice; non-trivial = at least 3 states",
             "distribution": {"cases": n}}
